@@ -37,7 +37,7 @@ func fmtKinds(m map[string]string) string {
 func c07State(c *Ctx, n *Node) []Violation {
 	a := n.Abs()
 	tip := a.Tip()
-	if tip == "" || a.IndexErr != nil {
+	if tip == "" || a.IndexErr != nil || indexConflict(a) || snapshotConflict(a) {
 		return nil
 	}
 	T, err := a.Snapshot(tip)
@@ -108,7 +108,7 @@ func c07Trans(c *Ctx, pre *Node, st Step, res *Result, post *State) ([]Violation
 func checkC07(e *RunEnv) *CheckResult {
 	names := []string{"test/x", "test/y", "test.c", "test-data", "test0", "t", "test/s/z", "test/s/w", "tests/w"}
 	spec := &Spec{
-		Seeds: []Seed{{"S0", seedS0()}, {"S1-one-file", append(seedS0(), Write("t", v1("t")), Run("add", "t"), Run("commit", "-m", "c1"))}, {"S1-six-names", append(seedS0(), Write("test/x", v1("test/x")), Write("test/y", v1("test/y")), Write("test.c", v1("test.c")),
+		Seeds: []Seed{{"S0", seedS0()}, {"dir-unstaged", append(seedS0(), Write("test/x", v1("test/x")), Write("t", v1("t")), Run("add", "test", "t"), Run("commit", "-m", "c1"), Run("rm", "test/x"))}, {"S1-one-file", append(seedS0(), Write("t", v1("t")), Run("add", "t"), Run("commit", "-m", "c1"))}, {"S1-six-names", append(seedS0(), Write("test/x", v1("test/x")), Write("test/y", v1("test/y")), Write("test.c", v1("test.c")),
 			Write("test-data", v1("test-data")), Write("test0", v1("test0")), Write("t", v1("t")), Write("test/s/z", v1("test/s/z")), Write("tests/w", v1("tests/w")), Run("add", "test", "test.c", "test-data", "test0", "t", "tests"), Run("commit", "-m", "c1"))}},
 		Depth: e.pick(3, 5),
 		Steps: func(n *Node) []Step {
@@ -125,6 +125,10 @@ func checkC07(e *RunEnv) *CheckResult {
 					steps = append(steps, Write(p, v1(p)))
 				}
 				steps = append(steps, Run("add", p).WithTags(t...), Run("rm", p).WithTags(t...), Run("restore", "--staged", p).WithTags(t...))
+			}
+			// type change: the directory test/ replaced by a file test, and staged
+			if _, isFile := a.W["test"]; !isFile {
+				steps = append(steps, Seq(Rmdir("test"), Write("test", "now a file\n"), Run("add", "test")).WithTags(t...))
 			}
 			steps = append(steps, Run("add", "test").WithTags(t...), Run("add", "tests").WithTags(t...), Run("commit", "-m", "m").WithTags(t...), Run("reset", "--mixed", "HEAD@{1}").WithTags(t...))
 			return steps
